@@ -635,7 +635,9 @@ def compare_case(ctx, idx, case, spec, model, stats):
     if model is not None:
         mtab, mresp = model
         if mtab != table:
-            ctx.broken_tie('correspondence', 'script table vs model', {'manifest': manifest, 'implementation': table, 'model': mtab})
+            if stats.get('_corr_reported', 0) < 3:
+                ctx.broken_tie('correspondence', 'script table vs model', {'manifest': manifest, 'implementation': table, 'model': mtab})
+            stats['_corr_reported'] = stats.get('_corr_reported', 0) + 1
             return
         for k, (ev, (got_eff, page), mr) in enumerate(zip(events, obs, mresp)):
             want = [norm_effects(mr[0]), expand_model_page(mtab, mr[1])]
@@ -773,10 +775,10 @@ def make_cases(ctx, root):
         ([{'file_name': 'a&b.ls', 'background': '#222', 'color': 'Li<nen'},
           {'file_name': 'on-all.ls', 'path': 'on', 'run_background': True, 'background': 'x', 'color': 'y'},
           {'file_name': '', 'path': 'stop', 'title': 'Stop', 'background': 'Maroon', 'color': 'White'},
-          {'file_name': 'q"t\'.ls', 'path': 'a&amp;b', 'background': '<b>', 'color': '"'},
+          {'file_name': 'q"t\'.ls', 'path': 'a&amp;b', 'run_background': True, 'background': '<b>', 'color': '"'},
           {'file_name': 'off-all.ls', 'path': 'off', 'background': '#222', 'color': 'Linen'}],
          [['R', '/', AGENTS[0]], ['R', '/a&b', AGENTS[0]], ['R', '/a&b', AGENTS[1]], ['R', '/a&amp;b', AGENTS[0]],
-          ['R', '/stop/a&b', AGENTS[0]], ['R', '/on', AGENTS[2]], ['R', '/on', AGENTS[3]], ['R', '/stop/on', AGENTS[0]],
+          ['R', '/stop/a&amp;b', AGENTS[0]], ['R', '/stop/a&b', AGENTS[0]], ['R', '/on', AGENTS[2]], ['R', '/on', AGENTS[3]], ['R', '/stop/on', AGENTS[0]],
           ['R', '/stop', AGENTS[0]], ['R', '/status', AGENTS[0]], ['R', '/capture', AGENTS[0]], ['C'],
           ['R', '/stop/a&amp;b', AGENTS[0]], ['R', '/off', AGENTS[0]], ['R', '/stop-current', AGENTS[0]], ['R', '/stop-all', AGENTS[0]],
           ['B', 'on'], ['R', '/on', AGENTS[0]], ['R', '/nope', AGENTS[0]], ['R', '/x/y', AGENTS[0]], ['R', '/status', AGENTS[3]]]),
@@ -845,7 +847,7 @@ def run(ctx):
         model = flat[i * step + 1] if with_model else None
         compare_case(ctx, i, c, spec, model, stats)
     ctx.stage('compare')
-    stats.pop('_corr_reported', None)
+    ctx.extra['correspondence_mismatching_cases'] = stats.pop('_corr_reported', 0)
     ctx.extra['cases'] = len(cases)
     ctx.extra['events'] = sum(len(c['events']) for c in cases)
     ctx.extra['branches'] = dict(sorted(stats.items()))
